@@ -76,6 +76,7 @@ package tools
 //@   modifies ghost fexists[srcfile], ghost fexists[destfile], ghost fdata[destfile]
 //@   ensures result == nil ==> fexists(destfile) && fdata(destfile) == old(fdata(srcfile))
 //@   ensures result != nil ==> fexists(destfile) == old(fexists(destfile)) && fdata(destfile) == old(fdata(destfile))
+//@   monitor moves[destfile] := old(moves(destfile)) + 1
 
 // C09.  A killed process leaves whatever its file-system calls so far produced,
 // so each call on its own has to keep the object store valid: a path in the
